@@ -656,6 +656,107 @@ def extract(repo):
     if order != sorted(order):
         fail('read_stream: order of info assertion / creation date / private / validate changed')
 
+
+    # ---- _magnet.py: regexes (via re._parser), match methods, parameter tables ----
+    import re as _re
+    import re._parser as _sp
+    import re._constants as _sc
+    magnet = parse(repo, 'torf/_magnet.py')
+    MG = find_class(magnet, 'Magnet')
+
+    def regex_of(name):
+        node = class_const(MG, name)
+        if not (isinstance(node, ast.Call) and ast.unparse(node.func) == 're.compile' and isinstance(node.args[0], ast.Constant)):
+            fail(f'{name}: not a re.compile(<literal>) call')
+        flags = 0
+        for kw in node.keywords:
+            if kw.arg != 'flags':
+                fail(f'{name}: unexpected keyword')
+            for part in ast.unparse(kw.value).split('|'):
+                part = part.strip()
+                if part not in ('re.IGNORECASE', 're.ASCII', 're.I', 're.A'):
+                    fail(f'{name}: unsupported flag {part}')
+                flags |= _re.IGNORECASE if part in ('re.IGNORECASE', 're.I') else _re.ASCII
+        return node.args[0].value, flags
+
+    def expand(lo, hi, flags):
+        out = [(lo, hi)]
+        if flags & _re.IGNORECASE:
+            for a, b, d in ((97, 122, -32), (65, 90, 32)):
+                l2, h2 = max(lo, a), min(hi, b)
+                if l2 <= h2:
+                    out.append((l2 + d, h2 + d))
+            if not flags & _re.ASCII:
+                letters = set()
+                for (l2, h2) in list(out):
+                    letters.update(chr(c).lower() for c in range(max(l2, 65), min(h2, 122) + 1))
+                if 's' in letters:
+                    out.append((0x17f, 0x17f))
+                if 'k' in letters:
+                    out.append((0x212a, 0x212a))
+                if 'i' in letters:
+                    out.append((0x130, 0x131))
+        return out
+
+    def conv(items, flags):
+        res = []
+        for op, av in items:
+            if op is _sc.AT:
+                res.append({_sc.AT_BEGINNING: 'RBol', _sc.AT_END: 'REnd', _sc.AT_END_STRING: 'REndZ'}.get(av) or fail(f'regex: unsupported anchor {av}'))
+            elif op is _sc.LITERAL:
+                res.append('RCls [' + '; '.join(f'({a}, {b})' for a, b in expand(av, av, flags)) + ']')
+            elif op is _sc.IN:
+                rs = []
+                for o2, a2 in av:
+                    if o2 is _sc.RANGE:
+                        rs += expand(a2[0], a2[1], flags)
+                    elif o2 is _sc.LITERAL:
+                        rs += expand(a2, a2, flags)
+                    else:
+                        fail(f'regex: unsupported class item {o2}')
+                res.append('RCls [' + '; '.join(f'({a}, {b})' for a, b in rs) + ']')
+            elif op is _sc.MAX_REPEAT:
+                lo, hi, sub = av
+                if lo != hi:
+                    fail('regex: only exact repetition {n} is supported')
+                res.append(f'RRep {lo} (RSeq [' + '; '.join(conv(sub, flags)) + '])')
+            elif op is _sc.BRANCH:
+                res.append('RAlt [' + '; '.join('RSeq [' + '; '.join(conv(alt, flags)) + ']' for alt in av[1]) + ']')
+            elif op is _sc.SUBPATTERN:
+                res.append('RGroup (RSeq [' + '; '.join(conv(av[3], flags)) + '])')
+            else:
+                fail(f'regex: unsupported opcode {op}')
+        return res
+
+    emit('(* _magnet.py: regexes and how they are applied *)')
+    emit('From Torf Require Import Regex.')
+    for nm, coqname in (('_INFOHASH_REGEX', 'ex_infohash_re'), ('_XT_REGEX', 'ex_xt_re')):
+        pat, flags = regex_of(nm)
+        tree = _sp.parse(pat, flags)
+        emit(f'Definition {coqname} : re := RSeq [' + '; '.join(conv(list(tree), flags)) + '].')
+    src_xt = ast.unparse(find_func(MG, 'xt', setter=True))
+    src_ih = ast.unparse(find_func(MG, 'infohash', setter=True))
+    for nm, src, what in (('ex_infohash_method_in_xt', src_xt, 'self._INFOHASH_REGEX.'), ('ex_xt_method', src_xt, 'self._XT_REGEX.'),
+                          ('ex_infohash_method', src_ih, 'self._INFOHASH_REGEX.')):
+        i = src.find(what)
+        if i < 0:
+            fail(f'{nm}: regex use not found')
+        meth = src[i + len(what):].split('(')[0]
+        if meth not in ('match', 'fullmatch'):
+            fail(f'{nm}: unsupported regex method {meth}')
+        emit(f'Definition {nm} : rmethod := {"MMatch" if meth == "match" else "MFullmatch"}.')
+    want_xt = ("@xt.setter def xt(self, value): value = str(value) if self._INFOHASH_REGEX.match(value): self._infohash = value else: "
+               "match = self._XT_REGEX.match(value) if match: self._infohash = match.group(1) else: raise error.MagnetError(value, 'Invalid exact topic (\"xt\")')")
+    if ' '.join(src_xt.split()).replace('.fullmatch(', '.match(') != want_xt:
+        fail('Magnet.xt setter changed: ' + ' '.join(src_xt.split())[:300])
+    want_ih = ("@infohash.setter def infohash(self, value): value = str(value) match = self._INFOHASH_REGEX.match(value) if match: self._infohash = value "
+               "else: raise error.MagnetError(value, 'Invalid info hash')")
+    if ' '.join(src_ih.split()).replace('.fullmatch(', '.match(') != want_ih:
+        fail('Magnet.infohash setter changed: ' + ' '.join(src_ih.split())[:300])
+    kp = class_const(MG, '_KNOWN_PARAMETERS')
+    if ast.unparse(kp) != "('xt', 'dn', 'xl', 'tr', 'xs', 'as', 'ws', 'kt')":
+        fail('_KNOWN_PARAMETERS changed: ' + ast.unparse(kp))
+
     emit('')
     return '\n'.join(out) + '\n'
 
